@@ -258,6 +258,8 @@ def run(facts, rep, ctx):
             rep.ok(R4, {"success_paths": n_ok, "labels_required": ["Count", "Info"]})
     except PathLimit:
         rep.inconc(R4, "arc::from_bytes: too many paths")
+    R6 = rep.rule("R16.6", "a record is rejected only when its range leaves the data region (explicit rejections evaluated at class representatives)", floor=1)
+    extraction_rejections(facts, rep, R6, b, where)
     # ---- R16.5 empty bodies ----------------------------------------------------------------------------
     R5 = rep.rule("R16.5", "a zero-length body is accepted wherever it is placed (including at the very end of the data)", floor=1)
     rb = facts.body("mila::bin_streams::BinArchiveReader::<'a>::read_bytes")
@@ -317,3 +319,103 @@ def run(facts, rep, ctx):
         rep.ok(R4, {"unwraps": 0})
     else:
         rep.violation(R4, b.name, "unwrap", "arc::from_bytes unwraps: %s" % uw, where)
+
+
+def extraction_rejections(facts, rep, R6, b, where):
+    """A record is reported as an error exactly when its range leaves the data region.  Every explicit error return of
+    arc::from_bytes whose condition mentions a record's address / size is evaluated at class representatives
+    (address, size, archive size, Count address, Info address); a record inside the data region must pass."""
+    from c04 import is_err_term
+
+    def val(t, env):
+        t = strip_refs(t)
+        while t[0] in ("cast", "deref"):
+            t = strip_refs(t[1])
+        if t[0] == "const" and isinstance(t[1], int) and not isinstance(t[1], bool):
+            return t[1]
+        if t[0] == "field" and isinstance(t[2], str) and t[2] in ("address", "size") and len(t) > 4 and str(t[4]).endswith("ArcEntry"):
+            return env[t[2]]
+        if t[0] == "call":
+            sh = t[1].rsplit("::", 1)[-1]
+            if sh in ("size", "len") and t[1].startswith("mila::bin_archive::BinArchive"):
+                return env["S"]
+            if sh in ("min", "max") and len(t[2]) == 2:
+                a_, b_ = val(t[2][0], env), val(t[2][1], env)
+                return None if a_ is None or b_ is None else (min if sh == "min" else max)(a_, b_)
+            if sh in ("saturating_add", "wrapping_add") and len(t[2]) == 2:
+                a_, b_ = val(t[2][0], env), val(t[2][1], env)
+                return None if a_ is None or b_ is None else a_ + b_
+            if sh in ("from", "into") and len(t[2]) == 1:
+                return val(t[2][0], env)
+            if sh == "find_label_address" and len(t[2]) > 1 and strip_refs(t[2][1])[0] == "const":
+                return env.get("lbl:" + str(strip_refs(t[2][1])[1]))
+            if sh == "branch" and t[2]:
+                return val(t[2][0], env)
+            if sh in ("ok_or", "ok_or_else", "unwrap", "expect") and t[2]:
+                return val(t[2][0], env)
+        if t[0] in ("field", "downcast") and t[0] == "downcast":
+            return val(t[1], env)
+        if t[0] == "field" and t[1][0] in ("downcast",):
+            return val(t[1][1], env)
+        if t[0] == "field" and t[3] == 0 and t[1][0] == "bin" and t[1][1].endswith("WithOverflow"):
+            t = ("bin", t[1][1].replace("WithOverflow", ""), t[1][2], t[1][3])
+        if t[0] == "bin":
+            a_, b_ = val(t[2], env), val(t[3], env)
+            if a_ is None or b_ is None:
+                return None
+            op = t[1].replace("WithOverflow", "").replace("Unchecked", "")
+            return {"Add": a_ + b_, "Sub": a_ - b_ if a_ >= b_ else None, "Mul": a_ * b_, "Eq": a_ == b_, "Ne": a_ != b_, "Lt": a_ < b_, "Le": a_ <= b_, "Gt": a_ > b_, "Ge": a_ >= b_}.get(op)
+        return None
+
+    def mentions(t):
+        return any(x[0] == "field" and isinstance(x[2], str) and x[2] in ("address", "size") and len(x) > 4 and str(x[4]).endswith("ArcEntry") for x in walk(t))
+    try:
+        paths = enum_paths(b, max_paths=6000)
+    except PathLimit:
+        rep.inconc(R6, "arc::from_bytes: too many paths")
+        return
+    cands = []
+    for p in paths:
+        if p.end != "ret" or is_err_term(p.ret) is not True:
+            continue
+        # an error built here (not one propagated from an accessor with `?`)
+        if p.ret[0] == "call" and "from_residual" in p.ret[1]:
+            continue
+        if any(mentions(c[1]) and c[4] == "bool" for c in p.conds):
+            cands.append(p)
+    if not cands:
+        rep.ok(R6, {"fn": b.name, "explicit_range_rejections": 0, "note": "ranges are rejected by the accessors only (C04)"})
+        return
+    grid = []
+    for (c_, i_) in ((0x10, 0x20), (0x1f0, 0x1e0)):
+        for a_ in (0x60, 0x100, 0x1c0, 0x1fc):
+            for z_ in (0, 4, 0x40):
+                grid.append({"address": a_, "size": z_, "S": 0x200, "lbl:Count": c_, "lbl:Info": i_})
+    bad = undec = None
+    for env in grid:
+        valid = env["address"] + env["size"] <= env["S"]
+        for p in cands:
+            holds = True
+            for (bb, term, vals, neg, dty) in p.conds:
+                if dty != "bool" or not mentions(term):
+                    continue
+                v = val(term, env)
+                if v is None:
+                    holds = None
+                    break
+                if (int(bool(v)) in vals) == neg:
+                    holds = False
+                    break
+            if holds is None:
+                undec = fmt(term)[:60]
+            elif holds and valid and bad is None:
+                bad = (env, "; ".join(fmt(c[1])[:60] for c in p.conds if c[4] == "bool" and mentions(c[1])))
+    if bad:
+        env, conds = bad
+        rep.violation(R6, b.name, "rejects-in-range", "arc::from_bytes reports an error for a record at %#x of %#x bytes in a %#x-byte data region (Count at %#x, Info at %#x) under [%s]: the range lies inside the data region" % (
+            env["address"], env["size"], env["S"], env["lbl:Count"], env["lbl:Info"], conds), where)
+    elif undec:
+        rep.inconc(R6, "arc::from_bytes: an explicit range rejection could not be evaluated (%s)" % undec)
+    else:
+        rep.ok(R6, {"fn": b.name, "explicit_range_rejections": len(cands), "classes": len(grid)})
+
